@@ -369,6 +369,22 @@ pub fn context_ops() -> Vec<Op> {
             }));
         }));
     }
+    // many distinct names in a row (a small fixed-size cache or interner recycles its slots only after a while)
+    v.push(context("ctx 40 distinct names formatted, parsed, rendered and hashed", || {
+        use std::hash::{Hash, Hasher};
+        let _ = quiet_catch(AssertUnwindSafe(|| {
+            let f = fmts::ascii();
+            for i in 0..40 {
+                let t = R::node(Tag::Product, vec![R::word(&format!("w{i}")), R::atom(Tag::IVar, &format!("v{i}")), R::atom(Tag::Operator, &format!("o{i}"))]).build();
+                let n = narsese::enum_narsese::Narsese::Term(t.clone());
+                let s = f.e.format_narsese(&n);
+                let _ = (ops::parse_enum(&f, &s).is_ok(), ops::lex_then_fold(&f, &s).is_ok(), ops::typst(&n).is_ok());
+                let mut h = std::collections::hash_map::DefaultHasher::new();
+                t.hash(&mut h);
+                let _ = h.finish();
+            }
+        }));
+    }));
     v.push(context("ctx failing truth / budget constructors", || {
         let _ = quiet_catch(AssertUnwindSafe(|| {
             let _ = Truth::try_from_floats([0.5, f64::NAN].into_iter());
